@@ -77,7 +77,9 @@ def rule_e9_polarity(ctx):
             continue
         preds = _pred_calls(ctx, b)
         rems = _raw_rem_calls(ctx, b)
-        if rems and not preds and "self_ty" in b.raw and "DrainFilter" in ctx.facts.types[b.raw["self_ty"]]["s"]:
+        ret_s = ctx.facts.types[b.locals[0]["ty"]]["s"]
+        yields = ret_s.startswith(("core::option::Option<", "Option<"))
+        if rems and not preds and "self_ty" in b.raw and yields:
             # the search loop handed to the standard library: `let item = self.iter.find(|item| pred(item))?; remove(item)`
             r_ = _find_form(ctx, b, rems, comp_iter)
             if r_ is not None:
@@ -90,9 +92,12 @@ def rule_e9_polarity(ctx):
         if not preds or not rems:
             continue
         st_ty = ctx.facts.types[b.raw["self_ty"]]["s"] if "self_ty" in b.raw else ""
-        if b.name == "retain":
+        # what the operation promises is read off its signature: a step that hands back an element (drain_filter, extract_if, ..) removes on
+        # `true`; an operation returning nothing is a retain (std's meaning: keep on `true`) when it is named so — other unit-returning
+        # predicate loops state their polarity nowhere the rule could read it, and are not decided
+        if ret_s == "()" and "retain" in b.name:
             want = "erase-on-false"
-        elif "DrainFilter" in st_ty:
+        elif yields:
             want = "remove-on-true"
         else:
             continue
